@@ -197,6 +197,10 @@ def build(i, r, scratch):
         out = os.path.join(scratch, "gen_out_%d.%s" % (i, "json" if emit == "json_schema" else "py"))
         argv = ["gen", "--name-tpl", "{name}Gen", "--input-mapping", p, "--parse", r.choice(("class", "infer", "function")),
                 "--emit", emit, "-o", out] + (["--emit-and-infer-imports"] if r.random() < 0.5 else [])
+        if r.random() < 0.5:
+            # imports taken from the analysed file itself, named the way a user in that directory would: a bare
+            # file name whose stem is importable (cwd is on sys.path) - it must be read, never imported
+            argv += ["--imports-from-file", r.choice((os.path.basename(p), p, "./" + os.path.basename(p)))]
         return {"kind": kind, "shown": src, "allowed_writes": [out], "call": lambda: cdd.__main__.main(argv)}
     if kind == "sync":
         pc, pf, pa = (write(scratch, "sync_%s_%d.py" % (k, i), src) for k in "cfa")
